@@ -42,13 +42,20 @@ def _run_target(job):
         from pyvc import verify, solve, replay
         from pyvc.contracts import REG
         importlib.import_module("specs." + prop)
+        if kind == "function":
+            try:
+                from pyvc import frontend as _fe
+                _mi, _ci, _node = _fe.Program().target(name)
+                out["hash"] = _fe.func_hash(_mi, _node)
+            except Exception:
+                pass
         if kind == "lemma":
             rep = verify.verify_lemma(name, prop)
         else:
             rep = verify.verify_function(name, prop, self_cls=self_cls, exclusions=exclusions, tag=tag, only_case=only_case)
         out["status"] = rep.status
         out["reason"] = rep.reason
-        out["hash"] = rep.hash
+        out["hash"] = rep.hash or out["hash"]
         out["lines"] = rep.lines
         out["dropped"] = rep.dropped
         out["trusted"] = sorted(rep.trusted)
@@ -229,8 +236,16 @@ def report(prop, spec, args, seed, ded, bres, findings, t0):
     expected = ledger.get(prop, {})
     seen_names = set()
     ded = _merge_split(ded)
+    ref_hashes = expected.get("__hashes__", {}) if isinstance(expected, dict) else {}
     for t in ded:
         if t["status"] == "error":
+            tkey = t["target"] + (("@" + t["self_cls"]) if t.get("self_cls") else "")
+            if ref_hashes.get(tkey) and t.get("hash") and ref_hashes[tkey] != t["hash"]:
+                # the function's source differs from the reference tree and its contract can no longer be evaluated
+                # on it (e.g. an invariant names a local that was renamed): undecided, not a checker error
+                undecided.append({"target": t["target"], "why": "contract does not fit the changed source: " +
+                                  (t["reason"] or "").splitlines()[0][:300]})
+                continue
             errors.append("deductive engine crashed on %s: %s" % (t["target"], t["reason"]))
             continue
         if t["status"] in ("undecided", "missing"):
@@ -268,7 +283,7 @@ def report(prop, spec, args, seed, ded, bres, findings, t0):
                     # the region of the finding was excluded and the obligation still fails: a different violation
                     pass
                 violations.append((rp, "" if reproduced else " no-failing-input-found", o["name"]))
-    missing = [n for n in expected if n not in seen_names]
+    missing = [n for n in expected if n not in seen_names and n != "__hashes__"]
     for n in missing:
         undecided.append({"obligation": n, "why": "in the ledger but not generated on this tree (target undecided or changed)"})
 
@@ -335,6 +350,8 @@ def report(prop, spec, args, seed, ded, bres, findings, t0):
 
     if args.relock and not violations and not errors and not scratch:
         ledger[prop] = {o["name"]: o["status"] for o in per_obl if o["expect"] != "sat"}
+        ledger[prop]["__hashes__"] = {t["target"] + (("@" + t["self_cls"]) if t.get("self_cls") else ""): t.get("hash")
+                                      for t in ded if t.get("kind") == "function" and t.get("hash")}
         with open(ledger_path, "w") as f:
             json.dump(ledger, f, indent=1, sort_keys=True)
 
